@@ -167,13 +167,14 @@ PROPS["C05"] = dict(
 )
 PROPS["C02"] = dict(
     title="a Snapshot stays valid for its critical section", level="other",
-    modules=_MODS_ALL, contract_groups=["state", "modular"],
+    modules=_MODS_ALL + ["epoch_h.rs", "internal_h.rs", "list_h.rs", "queue_h.rs", "deferred_h.rs"], contract_groups=["state", "modular", "epoch", "expired"],
     kani=dict(quick=_h(_RGF, ["rg_decrement_strong_noguard", "rg_decrement_strong_guard", "rg_is_not_destructed", "rg_try_destruct", "rg_increment_strong_protected"])
               + _h("utils_dispose_h.rs", _DISP_CORE) + _h("utils_state_h.rs", ["c12_window_theorem", "c12_window_skew", "c12_modular_max3", "c02_stamp_inside_critical_section_blocks_immediate_reclamation"])
               + _h("strong_h.rs", ["c08_store", "c08_swap", "c08_compare_exchange", "c08_compare_exchange_weak", "c08_compare_exchange_tag", "c08_load"])
-              + _h("weak_h.rs", ["c05_wsnap_upgrade"])),
+              + _h("weak_h.rs", ["c05_wsnap_upgrade"])
+              + _h("epoch_h.rs", ["c13_expiry_arith"]) + _h("internal_h.rs", ["c13_is_expired", "c13_is_expired_x", "c13_push_bag"])),
     kani_flags=_FAST, loops=_STUTTER,
-    functions_under_contract=["RcInner::decrement_strong (stamp = epoch read before the CAS; zero => deferred try_destruct only)", "AtomicRc::{store,swap,compare_exchange*,compare_exchange_tag} (timestamp on every non-null write)",
+    functions_under_contract=["SealedBag::is_expired", "Global::push_bag (seal = global epoch read at sealing)", "RcInner::decrement_strong (stamp = epoch read before the CAS; zero => deferred try_destruct only)", "AtomicRc::{store,swap,compare_exchange*,compare_exchange_tag} (timestamp on every non-null write)",
                               "dispose_general_node (child reclaimed in the same pass only if newest(parent,link,child) stamp is old enough; merged stamp written)", "RcInner::is_not_destructed (token by CAS from zero)", "Modular::{le,max}"],
     expected_obligations=["C02.dec.stamp_is_epoch_read_before_cas", "C02.dec.never_destructs_directly", "C02.cascade.child_stamp_is_newest_of_parent_link_child", "C12.site.immediate_only_if_stamp_old_enough",
                           "C02.cascade.recent_node_redeferred_exactly_once", "C02.wsnap_upgrade.token_added_when_zero", "C08.store.installs_ptr_tag_exact_timestamped", "C12.window.never_old_below_threshold",
@@ -304,7 +305,7 @@ PROPS["C13"] = dict(
     functions_under_contract=["SealedBag::is_expired", "Epoch::wrapping_sub", "Global::{push_bag,collect,try_advance}", "Local::{pin,unpin,defer,flush,schedule_collection}"],
     expected_obligations=["C13.expiry.wrapping_sub_ge_3_iff_three_advances", "C13.is_expired.post", "C13.pin.validated_against_global_epoch_after_publication", "C13.unpin.clears_pinned_bit_only_for_outermost_guard",
                           "C13.advance.refuses_while_a_pinned_participant_lags", "C13.push_bag.sealed_with_global_epoch_read_at_sealing", "C13.collect.first_bag_runs_iff_expired",
-                          "C13.collect.fifo_stops_at_first_unexpired_bag", "C13.defer.runs_nothing", "C13.unpin.collects_while_still_pinned"],
+                          "C13.collect.fifo_stops_at_first_unexpired_bag", "C13.defer.runs_nothing", "C13.unpin.collects_while_still_pinned", "C13.defer.keeps_the_announced_epoch_inside_a_critical_section"],
     trusted_base=[A_TOOLS, A_SC + " - fence placement and memory orderings (the SeqCst fence in pin/try_advance/push_bag) are invisible to the verifier", "A-EBR-THM: the classical 3-epoch theorem (pinned participants lag the clock by <= 1, so age >= 3 implies every critical section active at sealing has ended) is NOT decided here"],
     assumptions=[A_SC, "A-EBR-THM (composition)", "bounded configurations as listed"],
     explanation="The schedule-quantified statement is the classical EBR safety theorem; no per-function contract composes it. Decided here, for all inputs of the stated configurations, are the facts it consumes: is_expired <=> >= 3 clock steps; "
@@ -330,7 +331,7 @@ PROPS["C15"] = dict(
     harness_timeout=dict(quick=1500, thorough=5400),
     title="every deferred function runs exactly once, even across thread exit", level="proof",
     modules=_L3M, contract_groups=_L3G,
-    kani=dict(quick=_h("deferred_h.rs", _DEFD) + _h(_INT, ["c15_bag", "c15_defer", "c15_flush", "c15_finalize", "c13_push_bag", "c13_collect", "c16_unpin", "c15_handles", "c15_guard_defer", "c15_local_handle", "c18_register"]),
+    kani=dict(quick=_h("deferred_h.rs", _DEFD) + _h(_INT, ["c15_bag", "c15_defer", "c15_flush", "c15_finalize", "c13_push_bag", "c13_collect", "c16_unpin", "c16_repin", "c15_handles", "c15_guard_defer", "c15_local_handle", "c18_register"]),
               thorough=_h(_INT, ["c15_queue_drop_runs_leftovers"])),
     kani_flags=_FAST,
     loops="Bag::drop drains <= 3 stored functions; Local::defer's retry loop; collect's trial loop with <= 2 bags: all unwound with unwinding assertions on (complete for the bounded sizes)",
@@ -355,7 +356,7 @@ PROPS["C16"] = dict(
                           "C16.reactivate.unpins_only_when_sole_guard", "C16.reactivate.pinned_again_afterwards", "C16.reactivate.nested_keeps_announced_epoch", "C16.reactivate_after.f_runs_unpinned_only_when_sole_guard",
                           "C16.reactivate_after.pinned_again_afterwards", "C16.guard_drop.unpins_its_participant_exactly_once", "C13.schedule_collection.keeps_announced_epoch_outside_collection"],
     trusted_base=[A_TOOLS, "the panic path of reactivate_after ('also when the closure panics') is NOT covered: Kani aborts on panic and does not model unwinding; scopeguard is trusted"],
-    assumptions=["destructors that run during collection may create guards: collect is abstracted by its contract (it does not touch this participant's counters)"],
+    assumptions=["destructors that run during collection may create guards: collect is abstracted by its contract - it may leave up to 2 additional live guards on this participant (this clause was added after defect F7), otherwise it does not touch the participant's counters"],
 )
 PROPS["C17"] = dict(
     title="internal garbage queue: sequential FIFO / predicate contract", level="other",
